@@ -203,11 +203,32 @@ pub fn guard<T>(f: impl FnOnce() -> T) -> Result<T, Fail> {
         }
     }
 }
+/// A caller will print the error it got: formatting it must work too
+fn shown(e: HpkeError) -> Res<HpkeError> {
+    guard(|| {
+        let s = e.to_string();
+        let d = format!("{:?}", e);
+        std::hint::black_box((s.len(), d.len()));
+    })?;
+    Ok(e)
+}
 fn gh<T>(f: impl FnOnce() -> Result<T, HpkeError>) -> Res<T> {
-    guard(f)?.map_err(|e| Fail::Hpke(e.into()))
+    match guard(f)? {
+        Ok(v) => Ok(v),
+        Err(e) => Err(Fail::Hpke(shown(e)?.into())),
+    }
 }
 fn dec<T: Deserializable>(what: &str, b: &[u8]) -> Res<T> {
-    guard(|| T::from_bytes(b))?.map_err(|e| Fail::Decode(what.to_string(), e.into()))
+    // the bytes sit at an odd offset of their buffer (inputs come out of packets and files, not out
+    // of aligned allocations of their own)
+    let off = 1 + b.len() % 7;
+    let mut v = vec![0u8; b.len() + 16];
+    v[off..off + b.len()].copy_from_slice(b);
+    let input = &v[off..off + b.len()];
+    match guard(|| T::from_bytes(input))? {
+        Ok(t) => Ok(t),
+        Err(e) => Err(Fail::Decode(what.to_string(), shown(e)?.into())),
+    }
 }
 
 // Key objects live as long as the simulated party that owns them: a recipient decodes its private key
@@ -448,7 +469,26 @@ impl<A: Aead + 'static, K: Kdf + 'static, M: Kem + 'static> Sender for SCtx<A, K
         gh(|| self.0.seal(pt, aad))
     }
     fn seal_in_place(&mut self, buf: &mut [u8], aad: &[u8]) -> Res<Vec<u8>> {
-        let tag = gh(|| self.0.seal_in_place_detached(buf, aad))?;
+        // One packet buffer, header || payload (or payload || trailer): the aad and the message are
+        // adjacent regions of the same allocation, split with split_at_mut, as in a real packet path.
+        let mut packet = Vec::with_capacity(buf.len() + aad.len());
+        let header_first = (buf.len() + aad.len()) % 2 == 0;
+        let r = if header_first {
+            packet.extend_from_slice(aad);
+            packet.extend_from_slice(buf);
+            let (a, m) = packet.split_at_mut(aad.len());
+            let r = gh(|| self.0.seal_in_place_detached(m, a));
+            buf.copy_from_slice(m);
+            r
+        } else {
+            packet.extend_from_slice(buf);
+            packet.extend_from_slice(aad);
+            let (m, a) = packet.split_at_mut(buf.len());
+            let r = gh(|| self.0.seal_in_place_detached(m, a));
+            buf.copy_from_slice(m);
+            r
+        };
+        let tag = r?;
         guard(|| tag.to_bytes().to_vec())
     }
     fn export(&self, ctx: &[u8], len: usize) -> Res<Vec<u8>> {
@@ -480,7 +520,23 @@ impl<A: Aead + 'static, K: Kdf + 'static, M: Kem + 'static> Receiver for RCtx<A,
     }
     fn open_in_place(&mut self, buf: &mut [u8], aad: &[u8], tag: &[u8]) -> Res<()> {
         let tag: AeadTag<A> = dec("tag", tag)?;
-        gh(|| self.0.open_in_place_detached(buf, aad, &tag))
+        // adjacent regions of one packet buffer, see seal_in_place
+        let mut packet = Vec::with_capacity(buf.len() + aad.len());
+        if (buf.len() + aad.len()) % 2 == 1 {
+            packet.extend_from_slice(aad);
+            packet.extend_from_slice(buf);
+            let (a, m) = packet.split_at_mut(aad.len());
+            let r = gh(|| self.0.open_in_place_detached(m, a, &tag));
+            buf.copy_from_slice(m);
+            r
+        } else {
+            packet.extend_from_slice(buf);
+            packet.extend_from_slice(aad);
+            let (m, a) = packet.split_at_mut(buf.len());
+            let r = gh(|| self.0.open_in_place_detached(m, a, &tag));
+            buf.copy_from_slice(m);
+            r
+        }
     }
     fn export(&self, ctx: &[u8], len: usize) -> Res<Vec<u8>> {
         // a caller's buffer is not necessarily zeroed: the result must not depend on what it held
@@ -567,12 +623,15 @@ fn mode_r<'a, M: Kem>(m: &'a ModeR) -> Res<OpModeR<'a, M>> {
 }
 
 fn recode_t<T: Deserializable>(what: &str, b: &[u8]) -> Res<Vec<u8>> {
-    let v: T = guard(|| T::from_bytes(b))?.map_err(|e| Fail::Hpke(e.into()))?;
-    let _ = what;
+    let v: T = match dec::<T>(what, b) {
+        Ok(v) => v,
+        Err(Fail::Decode(_, e)) => return Err(Fail::Hpke(e)),
+        Err(f) => return Err(f),
+    };
     guard(|| v.to_bytes().to_vec())
 }
 fn write_exact_t<T: Deserializable>(b: &[u8], buflen: usize) -> Res<Vec<u8>> {
-    let v: T = guard(|| T::from_bytes(b))?.map_err(|e| Fail::Decode("value".into(), e.into()))?;
+    let v: T = dec::<T>("value", b)?;
     let mut buf = vec![0xA5u8; buflen];
     guard(|| v.write_exact(&mut buf))?;
     Ok(buf)
